@@ -39,12 +39,14 @@ TYPES = ["str", "int", "float", "IPv4Obj"]
 STANZA_HEAD = ["interface Eth1", "interface Eth2", "interface Serial1/0", "router bgp 65001", "vlan 10", "hostname R1", "mtu 9000"]
 LEAVES = ["ip address 1.1.1.1 255.255.255.0", "ip address 10.0.0.5 255.255.255.252", "mtu 1500", "mtu 9000", "bandwidth 1.5", "bandwidth 100",
           "description to core", "shutdown", "neighbor 1.2.3.4 remote-as 65002", "address-family ipv4", "delay 10", "mtu x", "ip address dhcp",
-          "!", "mtu 12 extra"]
+          "!", "mtu 12 extra", "description", "mtu", "description "]
 REGEXES = [  # (regex, number of groups)
     (r"mtu (\d+)", 1), (r"mtu (\S+)", 1), (r"ip address (\S+) (\S+)", 2), (r"ip address (\S+ \S+)", 1), (r"bandwidth (\S+)", 1),
     (r"^\s*(\S+) (\S+) (\S+)", 3), (r"(\d+)\.(\d+)\.(\d+)", 3), (r"interface (\S+)", 1), (r"(Eth|Serial)(\d+)", 2), (r"neighbor (\S+) remote-as (\d+)", 2),
     (r"^(\S+)", 1), (r"(\d+)$", 1), (r"delay (\d+)|mtu (\d+)", 2), (r"mtu (\d+)( extra)?", 2), (r"(x)?interface", 1), (r"shutdown", 0), (r"(\S+) (\d+)", 2),
     (r"hostname (\S+)", 1), (r"vlan (\d+)", 1), (r"router bgp (\d+)", 1),
+    # groups that take part in the match but capture the empty string
+    (r"description ?(.*)$", 1), (r"mtu ?(\d*)", 1), (r"shutdown(x|)", 1), (r"^\s*(\S*) ?(\S*)", 2), (r"delay (\d*)(\d*)", 2),
 ]
 DEFAULTS = [{"t": "str", "v": ""}, {"t": "str", "v": "D"}, {"t": "str", "v": "-1"}, {"t": "int", "v": -1}, {"t": "float", "v": 2.5},
             {"t": "none", "v": None}, {"t": "bool", "v": False}, {"t": "str", "v": "0.0.0.0/32"}, {"t": "str", "v": "1.5"}]
